@@ -17,7 +17,7 @@ from vlib import Infra, load_known, read_ndjson, write_ndjson, pmap, NCPU, REPO,
 
 ASSUME = [
     "token classes are concretised on one line (package, import, brackets, func, type|var|const, an identifier, '.', '...', ',', ';', a string literal); go/scanner's automatic semicolon at the end of the input is part of the model (Eff)",
-    "'promptly' = 5 s per call of the augmenter, 10 s per patch.Parse / File.Apply call (watchdog in the harness; a call that does not return is recorded as timeout), 20 s per command run",
+    "'promptly' = 5 s per call of the augmenter, 10 s per patch.Parse / File.Apply call (watchdog in the harness), 20 s per command run; an input whose watchdog fired is run again alone with a 60 s watchdog and only judged a hang if it still does not return",
     "memory exhaustion is observed as a killed worker process (the batch is bisected down to the offending input)",
     "part (iii) is plain exploration: the specification only supplies seeds and the outcome monitor",
 ]
@@ -121,6 +121,7 @@ def part_tokens(ctx, quick, recs, st):
         reqs.append(dict(id="tok-%d|aug" % i, op="augment", src=text))
         reqs.append(dict(id="tok-%d|minus" % i, op="parsepatch", name="t.patch", patch="@@\n@@\n-%s+x\n" % text))
         reqs.append(dict(id="tok-%d|plus" % i, op="parsepatch", name="t.patch", patch="@@\n@@\n-x\n+%s" % text))
+    REQS.update({r["id"]: r for r in reqs})
     res = {x["id"]: x for x in api_batch(ctx, reqs, "tok")}
     for i, (inp, augs) in enumerate(strings):
         a = res["tok-%d|aug" % i]
@@ -170,6 +171,7 @@ def part_illtyped(ctx, quick, recs, st):
                 patch2 = "@@\nvar x %s\n@@\n-%s\n+bar(x)\n" % (kind, SLOTS[s])
                 reqs.append(dict(id=rid2, op="apply", patch=patch2, name="s.go", src=src))
                 meta[rid2] = dict(patch=patch2, src=src)
+    REQS.update({r["id"]: r for r in reqs})
     for req, r in zip(reqs, api_batch(ctx, reqs, "ill")):
         o, d, s = outcome_of(r["err"])
         recs.append(dict(id=req["id"], outcome=o, diag=d, status=s, augs=[], pred=[], what=meta[req["id"]]))
@@ -262,6 +264,7 @@ def part_fuzz(ctx, quick, recs, st):
         rid = "fuzz-%d" % i
         reqs.append(dict(id=rid, op="apply", patch=p, name="s.go", src=src))
         meta[rid] = dict(patch=p, src=src, seed=name)
+    REQS.update({r["id"]: r for r in reqs})
     for req, r in zip(reqs, api_batch(ctx, reqs, "fuzz")):
         o, d, s = outcome_of(r["err"])
         recs.append(dict(id=req["id"], outcome=o, diag=d, status=s, augs=[], pred=[], what=meta[req["id"]]))
@@ -286,7 +289,35 @@ def part_fuzz(ctx, quick, recs, st):
     st["cli_cases"] = len(scs)
 
 
+def confirm_timeouts(ctx, recs, reqs_by_id):
+    """A watchdog that fires on a loaded machine is not a hang: every input recorded as timeout is run again,
+    alone, with a 60 s watchdog; only if it still does not return is it judged as a hang."""
+    again = [dict(reqs_by_id[r["id"]], timeout_ms=60000) for r in recs if r["outcome"] == "timeout" and r["id"] in reqs_by_id]
+    if not again:
+        return 0
+    # many timeouts: confirm a few first; if every one of them hangs alone as well, the rest are taken as hangs
+    # (re-running thousands of hanging inputs for 60 s each would only delay the verdict)
+    if len(again) > 8:
+        probe = again[:: max(1, len(again) // 8)][:8]
+        pres = api_batch(ctx, probe, "confirm-probe", shards=len(probe))
+        if all(outcome_of(x["err"])[0] == "timeout" for x in pres):
+            return 0
+    res = {x["id"]: x for x in api_batch(ctx, again, "confirm", shards=min(NCPU, len(again)))}
+    n = 0
+    for r in recs:
+        if r["id"] in res:
+            o, d, s = outcome_of(res[r["id"]]["err"])
+            if o != "timeout":
+                n += 1
+            r["outcome"], r["diag"], r["status"] = o, d, s
+    return n
+
+
+REQS = {}
+
+
 def judge(ctx, recs, st):
+    st["timeouts_not_confirmed"] = confirm_timeouts(ctx, recs, REQS)
     shards = max(1, min(NCPU, len(recs)))
     idx = [list(range(len(recs)))[i::shards] for i in range(shards)]
 
@@ -324,7 +355,7 @@ def run(ctx):
     cov = dict(states=st["states"], transitions=st["transitions"], traces_validated_against_impl=len(recs), evaluations=len(recs),
                distinct_nontrivial=len({json.dumps(r["what"], sort_keys=True) for r in recs}), token_strings=st["token_strings"],
                illtyped_cases=st["illtyped_cases"], fuzz_cases=st["fuzz_cases"], cli_cases=st["cli_cases"], outcomes=st["outcomes"],
-               model_drift_cases=st["drift"], inputs_tried=len(recs), exhaustive=False,
+               model_drift_cases=st["drift"], inputs_tried=len(recs), watchdog_timeouts_not_confirmed_alone=st.get("timeouts_not_confirmed", 0), exhaustive=False,
                samples=[{k: v for k, v in recs[0].items()}, {k: v for k, v in recs[-1].items()}],
                rule="(i) every token string of length <=%d over %d token classes: termination of the scanner model under weak fairness (TLC) and the real augmenter / patch.Parse on the concretised string on both sides of a patch; (ii) %d slot templates x %d binding kinds x expression / identifier metavariable, on the '+' and on the '-' side; (iii) exploration: every prefix of sampled seed patches and seeded token / byte / line mutations of the testdata and example patches crossed with their inputs, a sample also through the command; distinct = distinct inputs" % (4 if quick else 5, 12, len(SLOTS), len(BINDINGS)))
     return ctx.finish("model_checking", cov, ASSUME)
